@@ -4,6 +4,8 @@
 (* against Machine.tla.  Records:                                          *)
 (*   init   cart, rom chunks, romfill, cpu, ime   start of a history       *)
 (*   bw     a, v                                  bus write by the driver  *)
+(*   br     a, v                                  bus read by the driver   *)
+(*   tick   n                                     n clocks of device time  *)
 (*   press / release  b                           joypad input             *)
 (*   step   k in {"instr","block","halt"}         one emulator step        *)
 (* every record but init carries o = the projected state afterwards; step  *)
@@ -41,6 +43,11 @@ IsEvent(e) == l <= Len(Recs) /\ Recs[l].ev = e /\ l' = l + 1
 
 NewHistory == IsEvent("init") /\ m' = InitOf(Recs[l])
 BusWrite == IsEvent("bw") /\ m' = MWrite(m, Recs[l].a, Recs[l].v).m /\ ProjOK(m', Recs[l].o)
+\* a bus read by the driver: the value must be what the map shows (P1 bits 6-7 and STAT bit 7 are not constrained)
+ReadMask(a) == IF a = 65280 THEN 63 ELSE IF a = 65345 THEN 127 ELSE 255
+BusRead == IsEvent("br") /\ UNCHANGED m /\ (MRead(m, Recs[l].a) & ReadMask(Recs[l].a)) = (Recs[l].v & ReadMask(Recs[l].a))
+\* devices advance without the CPU (the driver calls the catch-up entry point directly)
+Tick == IsEvent("tick") /\ m' = CatchUp(m, Recs[l].n).m /\ ProjOK(m', Recs[l].o)
 Press == IsEvent("press") /\ m' = PressButton(m, Recs[l].b) /\ ProjOK(m', Recs[l].o)
 Release == IsEvent("release") /\ m' = ReleaseButton(m, Recs[l].b) /\ ProjOK(m', Recs[l].o)
 
@@ -61,7 +68,7 @@ Step == IsEvent("step") /\ (Recs[l].k = "halt" <=> m.run # "Run")
            /\ r.wr = Recs[l].wr /\ r.out = Recs[l].out
            /\ ClockOK(r, Recs[l]) /\ ImeOK(r, Recs[l])
 
-Next == NewHistory \/ BusWrite \/ Press \/ Release \/ Step
+Next == NewHistory \/ BusWrite \/ BusRead \/ Tick \/ Press \/ Release \/ Step
 TraceSpec == Init /\ [][Next]_<<m, l>>
 
 Matched == TLCGet("stats").diameter
